@@ -150,7 +150,8 @@ def main(argv=None):
                 violations.append(dict(property=pid, engine='kani', harness=h, obligation=h, bytes=pb.get('bytes'),
                                        message='; '.join(pb.get('failed_checks', [])[:3]), detail=kres.get('log', '')[-1500:]))
     # ------------------------------------------------------------------ verdict
-    os.makedirs(os.path.join(VERIF, 'evidence', 'replay'), exist_ok=True)
+    EVDIR = os.environ.get('VERIF_EVIDENCE') or os.path.join(VERIF, 'evidence')
+    os.makedirs(os.path.join(EVDIR, 'replay'), exist_ok=True)
     printed = []
     new_viol = []
     known_hits = []
@@ -173,7 +174,7 @@ def main(argv=None):
             printed.append(line)
     for v in new_viol:
         n += 1
-        rp = os.path.join(VERIF, 'evidence', 'replay', '%s-%d.json' % (pid, n))
+        rp = os.path.join(EVDIR, 'replay', '%s-%d.json' % (pid, n))
         rec = dict(v)
         rec['tier'] = a.tier
         nofail = True
@@ -215,8 +216,7 @@ def main(argv=None):
         # an undecided run is no evidence for a proof: say so explicitly
         ev['coverage']['discharged'] = 0 if level == 'proof' else discharged
         ev['coverage']['explanation'] = 'UNDECIDED RUN: ' + '; '.join(undecided)
-    os.makedirs(os.path.join(VERIF, 'evidence'), exist_ok=True)
-    json.dump(ev, open(os.path.join(VERIF, 'evidence', pid + '.json'), 'w'), indent=1)
+    json.dump(ev, open(os.path.join(EVDIR, pid + '.json'), 'w'), indent=1)
     for l in printed:
         print(l)
     print('%s tier=%s obligations=%d discharged=%d violations=%d known=%d undecided=%d wall=%.1fs -> exit %d' % (
